@@ -30,7 +30,9 @@ C02_Reject    == (J /\ Done /\ ~RefOK) => R.d1.err
 \* (a reserved token length in a header that is still incomplete may be reported either way)
 ReservedTkl == ~Udp /\ R.b # <<>> /\ R.b[1] % 16 > 8
 \* (a declared frame of 2^32 bytes or more may be waited for or refused)
-HugeFrame == ~Udp /\ ParseTCPHeader(R.b).st = "ok" /\ ParseTCPHeader(R.b).totHi >= 65536
+\* (decided as soon as the length field is complete, whether or not the rest of the header has arrived)
+HugeFrame == ~Udp /\ Len(R.b) >= 5 /\ R.b[1] \div 16 = 15
+             /\ (R.b[2] * 256 + R.b[3]) + ((65805 + 6 + (R.b[1] % 16) + R.b[4] * 256 + R.b[5]) \div 65536) >= 65536
 C02_Short     == (J /\ Done /\ ~Udp /\ R.api = "raw" /\ ~ReservedTkl /\ ~HugeFrame) => ((RefT.st = "short") <=> (R.d1.err /\ R.d1.short))
 \* "whatever they accept can be re-encoded, and re-encoding then decoding gives the same message again"
 C02_Reencode  == (J /\ Done /\ ~R.d1.err) => ~R.re.err
@@ -47,7 +49,7 @@ C02_HdrHuge   == (J /\ Done /\ ~Udp /\ R.api = "raw" /\ HRef.st = "ok" /\ HRef.t
                    (R.hdr.err \/ (R.hdr.mlhi = 65535 /\ R.hdr.mllo = 65535))
 HdrComplete  == R.b # <<>> /\ Len(R.b) >= 1 + ExtN(R.b[1] \div 16) + 1 + (R.b[1] % 16)
 C02_HdrReject == (J /\ Done /\ ~Udp /\ R.api = "raw" /\ HRef.st = "reject") => (R.hdr.err /\ (HdrComplete => ~R.hdr.short))
-C02_HdrShort  == (J /\ Done /\ ~Udp /\ R.api = "raw" /\ HRef.st = "short") => (R.hdr.err /\ R.hdr.short)
+C02_HdrShort  == (J /\ Done /\ ~Udp /\ R.api = "raw" /\ HRef.st = "short") => (R.hdr.err /\ (R.hdr.short \/ HugeFrame))
 \* conformance only: re-encoding gives the canonical bytes of the decoded message
 K02_Canon     == (J /\ Done /\ ~R.d1.err /\ ~R.re.err) => R.re.bytes = (IF Udp THEN EncUDP(R.d1.m) ELSE EncTCP(R.d1.m))
 =============================================================================
